@@ -165,13 +165,13 @@ def mc_expect_violation(d, module, cfg, invariant, label, res, **kw):
     return r
 
 
-def tlc_trace(d, module, cfg, tracefile, nlines, timeout=900, label="trace"):
+def tlc_trace(d, module, cfg, tracefile, nlines, timeout=900, label="trace", xss=False):
     """Validate the ndjson trace `tracefile` (copied to d/trace.ndjson).
     Returns (fails, r): fails = [(line, clause, extra)] printed by the trace spec."""
     dst = os.path.join(d, "trace.ndjson")
     if os.path.abspath(tracefile) != os.path.abspath(dst):
         shutil.copyfile(tracefile, dst)
-    r = tlc(d, module, cfg, workers=1, timeout=timeout, deque=True)
+    r = tlc(d, module, cfg, workers=1, timeout=timeout, deque=True, xss=xss)
     fails = [(int(a), b, c) for a, b, c in _RE_FAIL.findall(r["out"])]
     consumed = "Model checking completed. No error has been found" in r["out"]
     if not consumed and not r["violated"]:
